@@ -103,7 +103,8 @@ async fn run_uni<const INSTR: usize, const MS: usize>(variant: &str, timeout: bo
             let ng = new_gauge.clone();
             drive!(UniMoveFullSync::<u32, 64, MS, INSTR>::new("x").spawn_executors(limit, to,
                 move |stream| { let (i2, m2) = ng(); stream.map(move |v| { if log_events { ev(format!("call 0 yielded {v}")); } item_future(v, i2.clone(), m2.clone(), log_events) }) },
-                move |_err| { let e2 = e2.clone(); async move { e2.fetch_add(1, SeqCst); } },
+                // the error handler takes a moment (and is part of the processing of its item: the close callback comes after it)
+                move |_err| { let e2 = e2.clone(); async move { if log_events { tokio::time::sleep(Duration::from_millis(2)).await; ev("call 0 handled".into()); } e2.fetch_add(1, SeqCst); } },
                 move |e| { let o2 = o2.clone(); async move { if log_events { ev("call 0 callback".into()); } read_stats(&e, &o2); } }));
         }
         "fut" => {
@@ -568,6 +569,8 @@ fn main() {
             if cbs.len() != 1 { viol.push(("close_callback_count".into(), format!("{variant}: the close callback ran {} times", cbs.len()))); }
             else {
                 let last_fin = trace.iter().rposition(|l| l.starts_with("call 0 finished") || l.starts_with("call 0 yielded")).unwrap_or(0);
+                if let Some(last_handled) = trace.iter().rposition(|l| l == "call 0 handled") { if cbs[0] < last_handled {
+                    viol.push(("callback_before_last_item".into(), format!("{variant} limit={limit}: the close callback ran (log line {}) before the error handler of a failed item had completed (line {last_handled})", cbs[0]))); } }
                 if !items.is_empty() && cbs[0] < last_fin { viol.push(("callback_before_last_item".into(), format!("{variant} limit={limit}: close callback at log line {} but an item was still being processed at line {last_fin}", cbs[0]))); }
             }
             if !o.status_ended { viol.push(("status_not_ended".into(), format!("{variant}: the close callback found the executor in a non-ended state"))); }
